@@ -14,8 +14,25 @@ def main():
     payload = json.load(sys.stdin)
     from engine import runner
 
+    structural = payload["obligation"].startswith("well-defined/")
     rec = runner.run_task(payload["harness"], payload["shape"], kind="float", env=payload["env"],
-                          wanted=payload["obligation"])
+                          wanted=None if structural else payload["obligation"], sample_seed=payload.get("sample_seed"))
+    if structural:
+        # a well-definedness obligation has no float counterpart: replay = does ANY clause of the contract
+        # fail on the unmodified code at the solver's point (nan / inf / wrong value)?
+        h = runner.load_harness(payload["harness"])
+        tol = getattr(h, "tol", 1e-8)
+        for r in rec["results"]:
+            bad = r["status"] == "failed"
+            if r["status"] == "value":
+                g, e = runner._parse_num(r["got"]), runner._parse_num(r["exp"])
+                bad = not (abs(g - e) <= tol * max(abs(e), abs(g), 1))
+            if bad:
+                print(json.dumps({"verdict": "native-disagrees-with-spec", "obligation_failing_natively": r["name"],
+                                  "native": r.get("got"), "spec": r.get("exp"), "detail": r.get("detail")}))
+                return
+        print(json.dumps({"verdict": "native-agrees-with-spec" if rec["status"] == "ok" else "replay-crashed", "error": rec.get("error")}))
+        return
     out = {"verdict": "obligation-not-reached", "task_status": rec["status"], "error": rec.get("error")}
     if payload["obligation"] == "returns-normally":
         rs = [r for r in rec["results"] if r["name"] == "returns-normally"]
